@@ -1,4 +1,5 @@
 import Restic.Proofs.C53_lines
+import Restic.Proofs.C53_counts
 import Restic.Gen.Source
 /-!
 # C53 — diff reports exactly the paths that differ between two snapshots
@@ -366,7 +367,7 @@ theorem diff_spec (md : Bool) (fuel : Nat) (l1 l2 : List Tree)
     simp only [lines, List.mem_filterMap]
     constructor
     · rintro ⟨e, he, h⟩
-      cases e <;> simp at h
+      cases e <;> simp [prLine] at h
       subst h; exact he
     · intro h; exact ⟨_, h, rfl⟩
   have main := fun l => diff_lines md l fuel [] l1 l2 so1 so2 sh1 sh2 hf hd
@@ -427,7 +428,7 @@ end
 /-- the lines of `runDiff` are those of `diffTree` from the root -/
 theorem runDiff_lines (md : Bool) (fuel r1 r2 : Nat) (l1 l2 : List Tree) (size : Blob → Nat) :
     (runDiff md fuel r1 r2 l1 l2 size).lines = lines (diffTree md fuel [] l1 l2) := by
-  simp [runDiff, lines]
+  simp only [runDiff, lines, List.cons_append, List.nil_append, List.filterMap_cons, prLine]
 
 /-- **C53 for the command**: the change lines of `runDiff` satisfy the executable statement -/
 theorem runDiff_spec (md : Bool) (fuel r1 r2 : Nat) (l1 l2 : List Tree) (size : Blob → Nat)
@@ -435,6 +436,194 @@ theorem runDiff_spec (md : Bool) (fuel r1 r2 : Nat) (l1 l2 : List Tree) (size : 
     (hf : Faithful l1 l2) (hd : depthL l1 < fuel) :
     specLines md l1 l2 (runDiff md fuel r1 r2 l1 l2 size).lines = true := by
   rw [runDiff_lines]; exact diff_spec md fuel l1 l2 so1 so2 sh1 sh2 hf hd
+
+/-! ### the counters -/
+
+theorem diffItem_both (rec : List Name → List Tree → List Tree → List Ev) (md : Bool) (pre : List Name)
+    (m1 m2 : Meta) (k1 k2 : List Tree) :
+    diffItem rec md pre (some (.mk m1 k1), some (.mk m2 k2)) =
+      (blobsOf m1).map (Ev.blob .before) ++ (blobsOf m2).map (Ev.blob .after) ++
+      (if modOf md m1 m2 != "" then [Ev.line ⟨pre ++ [m1.name], m2.type == .dir, modOf md m1 m2⟩] else []) ++
+      (if isM m1 m2 then [Ev.changed] else []) ++ subEvs rec (pre ++ [m1.name]) m1 m2 k1 k2 := rfl
+
+/-- **removed items.** The nodes counted in `stats.Removed` are exactly, in tree order, the nodes
+    whose path exists in the first snapshot only. -/
+theorem removed_items (md : Bool) : ∀ (fuel : Nat) (pre : List Name) (l1 l2 : List Tree),
+    sortedL l1 = true → sortedL l2 = true → shapeL l1 = true → shapeL l2 = true → Faithful l1 l2 →
+    depthL l1 < fuel → statItems .removed (diffTree md fuel pre l1 l2) = onlyIn l1 l2 := by
+  intro fuel
+  induction fuel with
+  | zero => intro pre l1 l2 _ _ _ _ _ hd; omega
+  | succ f ih =>
+    intro pre l1 l2 so1 so2 sh1 sh2 hf hd
+    have ls1 := levelSorted_of_sortedL _ so1
+    have ls2 := levelSorted_of_sortedL _ so2
+    have hR : ∀ b, (diffItem (diffTree md f) md pre (none, b)).filterMap (prStat .removed) = [] := by
+      intro b
+      cases b with
+      | none => rfl
+      | some y =>
+        obtain ⟨m2, k2⟩ := y
+        simp only [diffItem, List.filterMap_append, stat_blobs, List.filterMap_cons, prStat, List.filterMap_nil,
+          List.nil_append, reduceCtorEq, if_false]
+        split
+        · exact stat_printDirL_ne _ _ (by decide) _ _
+        · rfl
+    unfold statItems onlyIn
+    simp only [diffTree]
+    rw [filterMap_flatMap', flatMap_left _ hR, dual_left l1 l2 ls1 ls2, flatMap_map', specList_decomp gOnly l1 l2 ls1]
+    apply flatMap_congr'
+    intro x hx
+    obtain ⟨m1, k1⟩ := x
+    obtain ⟨shk1, hdk1⟩ := shapeL_kids sh1 hx
+    have sok1 := sortedL_kids so1 hx
+    simp only [nm, Tree.meta]
+    cases hb : find l2 m1.name with
+    | none =>
+      rw [only_nil_T (Tree.mk m1 k1) (by simpa [sortedT] using sok1)]
+      simp only [diffItem, List.filterMap_append, stat_blobs, List.filterMap_cons, prStat, List.filterMap_nil,
+        List.nil_append, if_true, flattenT]
+      by_cases d : m1.type = .dir
+      · simp [d, stat_printDirL _ _ _ _ shk1]
+      · have hk : k1 = [] := hdk1.resolve_left d
+        subst hk
+        have e : (m1.type == NType.dir) = false := by simpa using d
+        simp [e, flattenL]
+    | some y =>
+      obtain ⟨m2, k2⟩ := y
+      obtain ⟨hm2, _⟩ := find_some hb
+      obtain ⟨shk2, hdk2⟩ := shapeL_kids sh2 hm2
+      rw [diffItem_both]
+      simp only [List.filterMap_append, stat_blobs, stat_ite_line, stat_ite_changed, List.nil_append]
+      rw [sub_removed _ _ m1 m2 k1 k2 sok1 shk1 hdk1 hdk2
+        (fun d1 d2 hs => hf _ _ (Occurs.top hx) (Occurs.top hm2) d1 d2 hs)
+        (fun _ _ => ih _ k1 k2 sok1 (sortedL_kids so2 hm2) shk1 shk2 (hf.kids hx hm2) (by have := depth_kids hx; omega))]
+      simp [specAt, gOnly, kidsOf, Tree.kids]
+
+/-- **added items.** The nodes counted in `stats.Added` are exactly, in tree order, the nodes whose
+    path exists in the second snapshot only. -/
+theorem added_items (md : Bool) : ∀ (fuel : Nat) (pre : List Name) (l1 l2 : List Tree),
+    sortedL l1 = true → sortedL l2 = true → shapeL l1 = true → shapeL l2 = true → Faithful l1 l2 →
+    depthL l1 < fuel → statItems .added (diffTree md fuel pre l1 l2) = onlyIn l2 l1 := by
+  intro fuel
+  induction fuel with
+  | zero => intro pre l1 l2 _ _ _ _ _ hd; omega
+  | succ f ih =>
+    intro pre l1 l2 so1 so2 sh1 sh2 hf hd
+    have ls1 := levelSorted_of_sortedL _ so1
+    have ls2 := levelSorted_of_sortedL _ so2
+    have hR : ∀ a, (diffItem (diffTree md f) md pre (a, none)).filterMap (prStat .added) = [] := by
+      intro a
+      cases a with
+      | none => rfl
+      | some x =>
+        obtain ⟨m1, k1⟩ := x
+        simp only [diffItem, List.filterMap_append, stat_blobs, List.filterMap_cons, prStat, List.filterMap_nil,
+          List.nil_append, reduceCtorEq, if_false]
+        split
+        · exact stat_printDirL_ne _ _ (by decide) _ _
+        · rfl
+    unfold statItems onlyIn
+    simp only [diffTree]
+    rw [filterMap_flatMap', flatMap_right _ hR, dual_right l1 l2 ls1 ls2, flatMap_map', specList_decomp gOnly l2 l1 ls2]
+    apply flatMap_congr'
+    intro y hy
+    obtain ⟨m2, k2⟩ := y
+    obtain ⟨shk2, hdk2⟩ := shapeL_kids sh2 hy
+    have sok2 := sortedL_kids so2 hy
+    simp only [nm, Tree.meta]
+    cases ha : find l1 m2.name with
+    | none =>
+      rw [only_nil_T (Tree.mk m2 k2) (by simpa [sortedT] using sok2)]
+      simp only [diffItem, List.filterMap_append, stat_blobs, List.filterMap_cons, prStat, List.filterMap_nil,
+        List.nil_append, if_true, flattenT]
+      by_cases d : m2.type = .dir
+      · simp [d, stat_printDirL _ _ _ _ shk2]
+      · have hk : k2 = [] := hdk2.resolve_left d
+        subst hk
+        have e : (m2.type == NType.dir) = false := by simpa using d
+        simp [e, flattenL]
+    | some x =>
+      obtain ⟨m1, k1⟩ := x
+      obtain ⟨hm1, hn1⟩ := find_some ha
+      have hn1' : m1.name = m2.name := hn1
+      obtain ⟨shk1, hdk1⟩ := shapeL_kids sh1 hm1
+      rw [diffItem_both]
+      simp only [List.filterMap_append, stat_blobs, stat_ite_line, stat_ite_changed, List.nil_append]
+      rw [sub_added _ _ m1 m2 k1 k2 sok2 shk2 hdk1 hdk2
+        (fun d1 d2 hs => hf _ _ (Occurs.top hm1) (Occurs.top hy) d1 d2 hs)
+        (fun _ _ => ih _ k1 k2 (sortedL_kids so1 hm1) sok2 shk1 shk2 (hf.kids hm1 hy) (by have := depth_kids hm1; omega))]
+      simp [specAt, gOnly, kidsOf, Tree.kids]
+
+/-- **changed files.** `ChangedFiles` counts exactly the paths that are regular files with different
+    content lists in both snapshots. -/
+theorem changed_files (md : Bool) : ∀ (fuel : Nat) (pre : List Name) (l1 l2 : List Tree),
+    sortedL l1 = true → sortedL l2 = true → shapeL l1 = true → shapeL l2 = true → Faithful l1 l2 →
+    depthL l1 < fuel → (diffTree md fuel pre l1 l2).filterMap prChanged = specList gChanged l1 l2 := by
+  intro fuel
+  induction fuel with
+  | zero => intro pre l1 l2 _ _ _ _ _ hd; omega
+  | succ f ih =>
+    intro pre l1 l2 so1 so2 sh1 sh2 hf hd
+    have ls1 := levelSorted_of_sortedL _ so1
+    have ls2 := levelSorted_of_sortedL _ so2
+    have hR : ∀ b, (diffItem (diffTree md f) md pre (none, b)).filterMap prChanged = [] := by
+      intro b
+      cases b with
+      | none => rfl
+      | some y =>
+        obtain ⟨m2, k2⟩ := y
+        simp only [diffItem, List.filterMap_append, changed_blobs, List.filterMap_cons, prChanged, List.filterMap_nil,
+          List.nil_append]
+        split
+        · exact changed_printDirL _ _ _
+        · rfl
+    simp only [diffTree]
+    rw [filterMap_flatMap', flatMap_left _ hR, dual_left l1 l2 ls1 ls2, flatMap_map', specList_decomp gChanged l1 l2 ls1]
+    apply flatMap_congr'
+    intro x hx
+    obtain ⟨m1, k1⟩ := x
+    obtain ⟨shk1, hdk1⟩ := shapeL_kids sh1 hx
+    simp only [nm, Tree.meta]
+    cases hb : find l2 m1.name with
+    | none =>
+      simp only [diffItem, List.filterMap_append, changed_blobs, List.filterMap_cons, prChanged, List.filterMap_nil,
+        List.nil_append, specAt, gChanged, Option.toList, kidsOf, Tree.kids, changed_nil_right]
+      split
+      · exact changed_printDirL _ _ _
+      · rfl
+    | some y =>
+      obtain ⟨m2, k2⟩ := y
+      obtain ⟨hm2, _⟩ := find_some hb
+      obtain ⟨shk2, hdk2⟩ := shapeL_kids sh2 hm2
+      rw [diffItem_both]
+      simp only [List.filterMap_append, changed_blobs, changed_ite_line, changed_ite_changed, List.nil_append]
+      rw [sub_changed _ _ m1 m2 k1 k2 hdk1 hdk2
+        (fun d1 d2 hs => hf _ _ (Occurs.top hx) (Occurs.top hm2) d1 d2 hs)
+        (fun _ _ => ih _ k1 k2 (sortedL_kids so1 hx) (sortedL_kids so2 hm2) shk1 shk2 (hf.kids hx hm2)
+          (by have := depth_kids hx; omega))]
+      simp only [specAt, gChanged, kidsOf, Tree.kids, Tree.meta]
+      by_cases hm : isM m1 m2 = true <;> simp [hm]
+
+/-- **C53, counters of the command.** `runDiff`'s item counters (added / removed files, dirs,
+    others) and `changed_files` satisfy the executable statement `specCounts`. -/
+theorem runDiff_counts (md : Bool) (fuel r1 r2 : Nat) (l1 l2 : List Tree) (size : Blob → Nat)
+    (so1 : sortedL l1 = true) (so2 : sortedL l2 = true) (sh1 : shapeL l1 = true) (sh2 : shapeL l2 = true)
+    (hf : Faithful l1 l2) (hd : depthL l1 < fuel) :
+    specCounts l1 l2 (runDiff md fuel r1 r2 l1 l2 size) = true := by
+  have hr := removed_items md fuel [] l1 l2 so1 so2 sh1 sh2 hf hd
+  have ha := added_items md fuel [] l1 l2 so1 so2 sh1 sh2 hf hd
+  have hc := changed_files md fuel [] l1 l2 so1 so2 sh1 sh2 hf hd
+  have e1 : statItems .removed ([Ev.blob .before ⟨true, r1⟩, Ev.blob .after ⟨true, r2⟩] ++ diffTree md fuel [] l1 l2)
+      = onlyIn l1 l2 := by
+    rw [← hr]; simp only [statItems, List.cons_append, List.nil_append, List.filterMap_cons, prStat]
+  have e2 : statItems .added ([Ev.blob .before ⟨true, r1⟩, Ev.blob .after ⟨true, r2⟩] ++ diffTree md fuel [] l1 l2)
+      = onlyIn l2 l1 := by
+    rw [← ha]; simp only [statItems, List.cons_append, List.nil_append, List.filterMap_cons, prStat]
+  have e3 : changedCount ([Ev.blob .before ⟨true, r1⟩, Ev.blob .after ⟨true, r2⟩] ++ diffTree md fuel [] l1 l2)
+      = changedIn l1 l2 := by
+    simp only [changedCount, changedIn, ← hc, List.cons_append, List.nil_append, List.filterMap_cons, prChanged]
+  simp only [specCounts, runDiff, e1, e2, e3, cntOK, mkStat, beq_self_eq_true, Bool.and_self]
 
 /-- with enough fuel the recursion never runs dry -/
 theorem not_exhausted (md : Bool) : ∀ (fuel : Nat) (pre : List Name) (l1 l2 : List Tree),
@@ -524,6 +713,11 @@ example : Faithful exA exB := faithful_of_check _ _ (by decide)
 /-- the main theorem applies to the example (all hypotheses are satisfiable together) -/
 example : specLines true exA exB (lines (diffTree true 4 [] exA exB)) = true :=
   diff_spec true 4 exA exB (by decide) (by decide) (by decide) (by decide) (faithful_of_check _ _ (by decide)) (by decide)
+
+/-- the counters of the example: 3 nodes removed below `/d`, one fifo added, one file changed -/
+example : specCounts exA exB (runDiff false 5 1 2 exA exB (fun _ => 1)) = true ∧
+    onlyIn exA exB = [{ name := [120], type := .file, content := [2] }, { name := [121], type := .dir, subtree := 11 },
+      { name := [122], type := .symlink }] ∧ changedIn exA exB = 1 := by decide
 
 /-- F5 (unchanged restic 0.19.1-dev printed only the `T` line for `/d`): that output violates the
     statement — `/d/x` exists only in the first snapshot and is not listed. -/
